@@ -405,3 +405,85 @@ Definition venue_channel (e : exch) (k : ikind) : option string :=
   | _ => None
   end.
 
+(* ------------------------------------------------------------------------------------------ *)
+(** * Which subscriptions the dynamic stream builder accepts
+    ([streams::builder::dynamic::validate_subscriptions], [Subscription::validate]) *)
+
+Inductive subkind :=
+| SKPublicTrades | SKOrderBooksL1 | SKOrderBooksL2 | SKOrderBooksL3 | SKLiquidations | SKCandles.
+
+(** [exchange_supports_instrument_kind_sub_kind]; every [ExchangeId] without a connector is
+    [ExOther] *)
+Definition supports_triple (e : exch) (k : ikind) (sk : subkind) : bool :=
+  match e, k, sk with
+  | BinanceSpot, KSpot, (SKPublicTrades | SKOrderBooksL1 | SKOrderBooksL2) => true
+  | BinanceFuturesUsd, KPerp, (SKPublicTrades | SKOrderBooksL1 | SKOrderBooksL2 | SKLiquidations) => true
+  | Bitfinex, KSpot, SKPublicTrades => true
+  | Bitmex, KPerp, SKPublicTrades => true
+  | BybitSpot, KSpot, SKPublicTrades => true
+  | BybitPerpetualsUsd, KPerp, SKPublicTrades => true
+  | Coinbase, KSpot, SKPublicTrades => true
+  | GateioSpot, KSpot, SKPublicTrades => true
+  | GateioFuturesUsd, KFuture _, SKPublicTrades => true
+  | GateioFuturesBtc, KFuture _, SKPublicTrades => true
+  | GateioPerpetualsUsd, KPerp, SKPublicTrades => true
+  | GateioPerpetualsBtc, KPerp, SKPublicTrades => true
+  | GateioOptions, KOption _ _ _, SKPublicTrades => true
+  | Kraken, KSpot, (SKPublicTrades | SKOrderBooksL1) => true
+  | Okx, _, SKPublicTrades => true
+  | _, _, _ => false
+  end.
+
+(** [exchange_supports_instrument_kind] (used by the typed [Subscription<Exchange, ..>::validate]) *)
+Definition supports_kind (e : exch) (k : ikind) : bool :=
+  match k with
+  | KSpot =>
+      match e with
+      | BinanceFuturesUsd | Bitmex | BybitPerpetualsUsd | GateioPerpetualsUsd | GateioPerpetualsBtc => false
+      | _ => true
+      end
+  | KFuture _ => match e with GateioFuturesUsd | GateioFuturesBtc | Okx => true | _ => false end
+  | KPerp =>
+      match e with
+      | BinanceFuturesUsd | Bitmex | Okx | BybitPerpetualsUsd | GateioPerpetualsUsd | GateioPerpetualsBtc => true
+      | _ => false
+      end
+  | KOption _ _ _ => match e with GateioOptions | Okx => true | _ => false end
+  end.
+
+(** a dynamic subscription: (identity of the Rust value, exchange, instrument kind, kind) *)
+Notation dsub := (N * exch * ikind * subkind)%type.
+
+Fixpoint dedup_ids (l : list N) : list N :=
+  match l with
+  | [] => []
+  | x :: t => x :: filter (fun y => negb (N.eqb x y)) (dedup_ids t)
+  end.
+
+(** [validate_subscriptions]: every subscription must be supported, then sort + dedup (the
+    order is Rust's derived [Ord], not modelled: the result is a set of identities) *)
+Definition validate_batch (l : list dsub) : option (list N) :=
+  if forallb (fun s : dsub => match s with (_, e, k, sk) => supports_triple e k sk end) l
+  then Some (dedup_ids (map (fun s : dsub => fst (fst (fst s))) l))
+  else None.
+
+(** ** independent side: the (exchange, kind) pairs [DynamicStreams::init] has a connector arm
+    for, and the instrument kinds each venue endpoint serves *)
+Definition routed_pair (e : exch) (sk : subkind) : bool :=
+  match e, sk with
+  | BinanceSpot, (SKPublicTrades | SKOrderBooksL1 | SKOrderBooksL2) => true
+  | BinanceFuturesUsd, (SKPublicTrades | SKOrderBooksL1 | SKOrderBooksL2 | SKLiquidations) => true
+  | Kraken, (SKPublicTrades | SKOrderBooksL1) => true
+  | (Bitfinex | Bitmex | BybitSpot | BybitPerpetualsUsd | Coinbase | GateioSpot | GateioFuturesUsd
+     | GateioFuturesBtc | GateioPerpetualsUsd | GateioPerpetualsBtc | GateioOptions | Okx), SKPublicTrades => true
+  | _, _ => false
+  end.
+Definition venue_serves (e : exch) (k : ikind) : bool :=
+  match e, k with
+  | (BinanceSpot | Bitfinex | BybitSpot | Coinbase | GateioSpot | Kraken), KSpot => true
+  | (BinanceFuturesUsd | Bitmex | BybitPerpetualsUsd | GateioPerpetualsUsd | GateioPerpetualsBtc), KPerp => true
+  | (GateioFuturesUsd | GateioFuturesBtc), KFuture _ => true
+  | GateioOptions, KOption _ _ _ => true
+  | Okx, _ => true
+  | _, _ => false
+  end.
